@@ -28,6 +28,15 @@ struct Case {
     /// generator uses): the graph is realised as a project of serde structs
     #[serde(default)]
     via_analyzer: bool,
+    /// second phase on the SAME graph object: these dependencies are added after the
+    /// first round of queries (through add_dependencies / add_dependency), then the same
+    /// requests are asked again
+    #[serde(default)]
+    edges2: Vec<(usize, usize)>,
+    /// resolver only: node i carries the *name* of node alias[i] (same name, other
+    /// path / node type: two `Config` structs in two modules)
+    #[serde(default)]
+    alias: Vec<usize>,
 }
 
 fn name(i: usize) -> String {
@@ -110,12 +119,35 @@ fn run_routines(c: &Case) -> Result<(), String> {
         let sorted = g.topological_sort_types(&set);
         println!("T {} {}", k, sorted.join(","));
     }
-    // (2) DependencyResolver (dangling targets are ordinary nodes there)
+    if !c.edges2.is_empty() {
+        // the graph grows; the same object is asked again
+        let mut touched: Vec<usize> = c.edges2.iter().map(|e| e.0).collect();
+        touched.sort();
+        touched.dedup();
+        for (j, u) in touched.iter().enumerate() {
+            if c.incremental && j % 2 == 0 {
+                for e in c.edges2.iter().filter(|e| e.0 == *u) {
+                    g.add_dependency(name(e.0), name(e.1));
+                }
+            } else {
+                let deps: HashSet<String> = c.edges.iter().chain(c.edges2.iter()).filter(|e| e.0 == *u).map(|e| name(e.1)).collect();
+                g.add_dependencies(name(*u), deps);
+            }
+        }
+        for (k, req) in c.requested.iter().enumerate() {
+            let set: HashSet<String> = req.iter().map(|i| name(*i)).collect();
+            let sorted = g.topological_sort_types(&set);
+            println!("U {} {}", k, sorted.join(","));
+        }
+    }
+    // (2) DependencyResolver (dangling targets are ordinary nodes there); a node's identity
+    // is (name, path, type): the path is unique per node, names may be shared
     let node = |i: usize| DependencyNode {
-        name: name(i),
-        path: format!("src/f{}.rs", i % 3),
+        name: name(c.alias.get(i).copied().unwrap_or(i)),
+        path: format!("src/n{}.rs", i),
         node_type: if i % 2 == 0 { DependencyNodeType::Struct } else { DependencyNodeType::Command },
     };
+    let idx = |n: &DependencyNode| -> String { n.path.trim_start_matches("src/n").trim_end_matches(".rs").to_string() };
     let mut r = DependencyResolver::new();
     for i in 0..c.n {
         r.add_node(node(i));
@@ -131,7 +163,7 @@ fn run_routines(c: &Case) -> Result<(), String> {
         r.add_dependency(Dependency { from: node(u), to: node(v), dependency_type });
     }
     match r.resolve_build_order() {
-        Ok(order) => println!("R ok {}", order.iter().map(|n| n.name.clone()).collect::<Vec<_>>().join(",")),
+        Ok(order) => println!("R ok {}", order.iter().map(|n| format!("N{}", idx(n))).collect::<Vec<_>>().join(",")),
         Err(DependencyError::CircularDependency(s)) => println!("R cycle {}", s),
         Err(e) => println!("R other {}", e),
     }
@@ -207,7 +239,40 @@ impl Check for C20 {
         let s = if tier == Tier::Thorough { 24 } else { 8 };
         let keys = (0..s).map(|_| [r.next_u64(), r.next_u64()]).collect();
         let via_analyzer = i % 8 == 5 && n <= 7;
-        serde_json::to_value(Case { n, edges, incremental: r.chance(1, 3), requested, keys, via_analyzer }).unwrap()
+        // a long chain now and then (deeper than any small constant)
+        let (n, edges, requested) = if i % 40 == 17 {
+            let n = r.range(34, 70);
+            let mut e: Vec<(usize, usize)> = (1..n).map(|u| (u, u - 1)).collect();
+            for _ in 0..r.range(0, 4) {
+                let u = r.range(2, n - 1);
+                let v = r.below(u as u64 - 1) as usize;
+                e.push((u, v));
+            }
+            r.shuffle(&mut e);
+            (n, e, vec![vec![n - 1], (0..n).collect(), vec![n / 2, n - 1]])
+        } else {
+            (n, edges, requested)
+        };
+        // the graph object is extended and asked again
+        let mut edges2 = vec![];
+        if i % 5 == 3 {
+            for _ in 0..r.range(1, 3) {
+                let u = r.below(n as u64) as usize;
+                let v = r.below(n as u64) as usize;
+                if !edges.contains(&(u, v)) {
+                    edges2.push((u, v));
+                }
+            }
+        }
+        // shared node names (resolver)
+        let mut alias: Vec<usize> = (0..n + 4).collect();
+        if i % 6 == 4 && n >= 2 {
+            for _ in 0..r.range(1, 2) {
+                let a = r.range(1, n - 1);
+                alias[a] = r.below(a as u64) as usize;
+            }
+        }
+        serde_json::to_value(Case { n, edges, incremental: r.chance(1, 3), requested, keys, via_analyzer: via_analyzer && n <= 7, edges2, alias }).unwrap()
     }
 
     fn exec(&self, env: &mut Env, case: &Value) -> CaseOut {
@@ -219,9 +284,12 @@ impl Check for C20 {
                 return co;
             }
         };
-        let n_all = c.edges.iter().map(|e| e.1 + 1).max().unwrap_or(0).max(c.n);
+        let n_all = c.edges.iter().chain(c.edges2.iter()).map(|e| e.1 + 1).max().unwrap_or(0).max(c.n);
         let reach = reach_matrix(n_all, &c.edges);
         let same_scc = |a: usize, b: usize| a == b || (reach[a][b] && reach[b][a]);
+        let all_edges: Vec<(usize, usize)> = c.edges.iter().chain(c.edges2.iter()).copied().collect();
+        let reach2 = reach_matrix(n_all, &all_edges);
+        let same_scc2 = |a: usize, b: usize| a == b || (reach2[a][b] && reach2[b][a]);
         let cyclic = (0..n_all).any(|i| reach[i][i]);
         let mut orders: BTreeSet<String> = BTreeSet::new();
         let mut cuts = 0u64;
@@ -249,8 +317,12 @@ impl Check for C20 {
             cuts += res.stderr.matches("Circular dependency detected").count() as u64;
             for line in res.stdout.lines() {
                 let mut it = line.splitn(3, ' ');
-                match it.next() {
-                    Some("T") => {
+                let tag = it.next();
+                // "U": the same request after the graph object was extended
+                let (reach, edges_now, phase): (&Vec<Vec<bool>>, &Vec<(usize, usize)>, &str) = if tag == Some("U") { (&reach2, &all_edges, "/after-growth") } else { (&reach, &c.edges, "") };
+                let same_scc = |a: usize, b: usize| if tag == Some("U") { same_scc2(a, b) } else { same_scc(a, b) };
+                match tag {
+                    Some("T") | Some("U") => {
                         let k: usize = it.next().unwrap().parse().unwrap();
                         let names: Vec<usize> = it
                             .next()
@@ -264,7 +336,7 @@ impl Check for C20 {
                         // exactly once
                         let set: BTreeSet<usize> = names.iter().copied().collect();
                         if set.len() != names.len() {
-                            co.violate("C20/topo/duplicate".into(), "each type is returned exactly once", format!("requested {:?}: {:?}", req, names));
+                            co.violate(format!("C20/topo/duplicate{}", phase), "each type is returned exactly once", format!("requested {:?}: {:?}", req, names));
                         }
                         // requested + everything reachable
                         let mut want: BTreeSet<usize> = req.iter().copied().collect();
@@ -277,18 +349,18 @@ impl Check for C20 {
                         }
                         if set != want {
                             co.violate(
-                                "C20/topo/set".into(),
+                                format!("C20/topo/set{}", phase),
                                 "the result is the requested types plus all their transitive dependencies",
                                 format!("requested {:?}: got {:?}, expected {:?}", req, set, want),
                             );
                         }
                         // dependency before dependent unless on a common cycle
                         let pos = |x: usize| names.iter().position(|y| *y == x);
-                        for &(u, v) in &c.edges {
+                        for &(u, v) in edges_now.iter() {
                             if let (Some(pu), Some(pv)) = (pos(u), pos(v)) {
                                 if !same_scc(u, v) && pv > pu {
                                     co.violate(
-                                        "C20/topo/order".into(),
+                                        format!("C20/topo/order{}", phase),
                                         "every dependency comes before its dependents when the two are not on a common cycle",
                                         format!("requested {:?}: {} depends on {} but order is {:?}", req, name(u), name(v), names),
                                     );
